@@ -7,7 +7,7 @@ ROOT = os.path.dirname(os.path.dirname(os.path.abspath(__file__)))
 TECH = ("bounded model checking of the compiled Rust code: Kani 0.68 -> CBMC 6.11 -> SAT (cadical); symbolic inputs "
         "via kani::any(), unwinding assertions on, counterexamples replayed natively with cargo kani playback")
 
-TECH2 = TECH + "; for C01, C02, C03, C04, C05, C11, C12, C13 additionally path-forking symbolic execution of rustc's MIR with z3 (mirsym)"
+TECH2 = TECH + "; for C01, C02, C03, C04, C05, C11, C12, C13, C15 additionally path-forking symbolic execution of rustc's MIR with z3 (mirsym)"
 
 CLAIMED = {
     # id: (level text, level_note, design_ref)
@@ -154,11 +154,21 @@ CLAIMED = {
         "in evidence; code using a std call without a model is reported inconclusive, never passed. Bounds: <= 5 lints.",
         "DESIGN.md section 4, C13"),
     "C15": (
-        "The distance routine only: edit_distance / edit_distance_min_alloc equals the recursive Levenshtein definition for all pairs "
-        "of strings up to 3x3 (4x4) chars over all Unicode scalars, is symmetric, and does not depend on the previous contents of its "
-        "scratch buffers.",
-        "Outside the claim: FST / mutable / merged dictionaries and fuzzy_match (hash maps, fst automata, thread-local builders: not "
-        "encodable), i.e. back-end agreement, completeness and ordering of fuzzy search are NOT checked.",
+        "Kani/CBMC: edit_distance / edit_distance_min_alloc equals the recursive Levenshtein definition for all pairs of strings up "
+        "to 3x3 (4x4) chars over all Unicode scalars, is symmetric, and does not depend on the previous contents of its scratch "
+        "buffers. mirsym (MIR symbolic execution, z3): the real MutableDictionary (new, append_word, WordMap, WordId::from_word_chars, "
+        "CharStringExt::normalized / to_lower), the delegating FstDictionary methods and MergedDictionary's impl Dictionary, executed "
+        "on dictionaries whose words are 1-3 fully symbolic ASCII letters (both cases) and a fully symbolic query: contains_word, "
+        "contains_exact_word, get_word_metadata, get_correct_capitalization_of ([char] and str forms) of a MergedDictionary are the "
+        "union of its parts (first part wins) and FstDictionary answers like the MutableDictionary it wraps; "
+        "MutableDictionary::fuzzy_match and MergedDictionary::fuzzy_match (length window, edit_distance_min_alloc on the query and "
+        "its lower-case form, sorted_unstable_by_key, take) on one or two words: every result is a dictionary word with its true "
+        "Levenshtein distance within the bound, results are ordered by distance, distinct and capped at max_results, and no word "
+        "within the bound is missed for a lower-case query.",
+        "Bounds: words and queries of <= 3 ASCII letters, <= 2 words per dictionary, max_distance <= 2 (3). WordId's hash is modelled "
+        "as collision-free, hashbrown's map as an association list iterated in insertion order. Outside the claim: the FST index and "
+        "Levenshtein automata behind FstDictionary::fuzzy_match (fst / levenshtein_automata crates), the curated word list, non-ASCII "
+        "words, hash collisions.",
         "DESIGN.md section 4, C15"),
     "C17": (
         "For every integer n < 2^53 (one SAT query over a 53-bit variable) NumberSuffix::correct_suffix_for(n as f64) equals the "
@@ -205,7 +215,7 @@ def main():
                 "engine": "kani-cbmc",
                 "level_claimed": {"category": "model_checking", "text": text, "design_ref": ref},
                 "level_note": note,
-                "technique": TECH2 if pid in ("C13", "C02", "C01", "C03", "C04", "C05", "C11", "C12") else TECH,
+                "technique": TECH2 if pid in ("C13", "C02", "C01", "C03", "C04", "C05", "C11", "C12", "C15") else TECH,
             })
         elif pid not in na:
             na[pid] = "check not built yet (work in progress; see DESIGN.md)"
@@ -229,7 +239,7 @@ def main():
                               "classifies results, replays counterexamples natively and writes evidence",
         }, {
             "name": "mirsym", "path": "/verif/mirsym",
-            "serves_properties": ["C01", "C02", "C03", "C04", "C05", "C11", "C12", "C13"],
+            "serves_properties": ["C01", "C02", "C03", "C04", "C05", "C11", "C12", "C13", "C15"],
             "kind_free_text": "path-forking symbolic executor for rustc's textual MIR (dumped from /repo on every run with the "
                               "nightly toolchain), z3 4.x via python3-vt decides branch feasibility and post-conditions; std calls "
                               "are dispatched to hand-written contracts (models.py)",
